@@ -6,6 +6,8 @@ CONSTANTS
   RepackCommitBeforeFsync = FALSE
   RepackUnlinkOldFirst = FALSE
   SeekBackWithoutTruncate = TRUE
+  RepackNoIntermediateCommit = FALSE
+  ImportFsyncOnlyLast = FALSE
   DeleteIndexFirst = FALSE
 INVARIANT Recoverable
 INVARIANT KeysUnique
